@@ -102,6 +102,87 @@ theorem C14_add_signal_refused (env : Env) (w : World) (i : Inst) (n : Int) (tag
       have hl : lookup n w.reg.signals = none := (taken_false_iff _ _).1 hq.2
       simp [Registry.register, hf, registerUnchecked, hl, hq.1]
 
+/-! ## Round sixteen: "the library stays fully usable" over whole histories
+
+The one-call theorems above say a refused call leaves the state literally unchanged. The statement a user relies on is
+about histories: however many refused calls are mixed into a sequence of registrations, at whatever positions, every
+other call returns what it would have returned without them and the registry ends in the same state. -/
+
+abbrev Call := Entry × Int × Nat
+
+/-- a call the checked entry points must refuse -/
+def forbiddenCall (env : Env) (c : Call) : Bool := c.1.checked && decide (c.2.1 ∈ env.forbidden)
+
+/-- run a history of entry-point calls from `s`: final state and, per call, its result and whether the library
+kept what it was handed -/
+def runCalls (env : Env) (known : Int → Bool) : State → List Call → State × List (Call × Res × Bool)
+  | s, [] => (s, [])
+  | s, c :: cs =>
+    let r := callEntry env known s c.1 c.2.1 c.2.2
+    let rest := runCalls env known r.1 cs
+    (rest.1, (c, r.2) :: rest.2)
+
+/-- a forbidden call changes nothing, keeps nothing, and answers with a panic or (conditional default of a number
+without a name) an error - without the side condition of `C14_forbidden_refused` -/
+theorem callEntry_forbidden (env : Env) (known : Int → Bool) (s : State) (c : Call)
+    (h : forbiddenCall env c = true) :
+    (callEntry env known s c.1 c.2.1 c.2.2).1 = s ∧
+    ((callEntry env known s c.1 c.2.1 c.2.2).2 = (.panic, false) ∨
+     (callEntry env known s c.1 c.2.1 c.2.2).2 = (.err, false)) := by
+  obtain ⟨e, sig, tag⟩ := c
+  simp only [forbiddenCall, Bool.and_eq_true, decide_eq_true_eq] at h
+  obtain ⟨hc, hf⟩ := h
+  by_cases hk : e = .condDefault ∧ known sig = false
+  · obtain ⟨he, hk⟩ := hk
+    subst he
+    rw [C14_cond_default_unknown env known s sig tag hk]
+    exact ⟨rfl, Or.inr rfl⟩
+  · have hk' : e = .condDefault → known sig = true := by
+      intro he
+      cases hks : known sig with
+      | true => rfl
+      | false => exact absurd ⟨he, hks⟩ hk
+    rw [C14_forbidden_refused env known s e sig tag hc hf hk']
+    exact ⟨rfl, Or.inl rfl⟩
+
+/-- **C14.refusals_erasable** — for every history of calls from every registry state: deleting the forbidden calls
+changes neither the final state nor the result of any remaining call. -/
+theorem C14_refusals_erasable (env : Env) (known : Int → Bool) (s : State) (cs : List Call) :
+    (runCalls env known s cs).1 = (runCalls env known s (cs.filter (fun c => !forbiddenCall env c))).1 ∧
+    (runCalls env known s cs).2.filter (fun p => !forbiddenCall env p.1) =
+      (runCalls env known s (cs.filter (fun c => !forbiddenCall env c))).2 := by
+  induction cs generalizing s with
+  | nil => exact ⟨rfl, rfl⟩
+  | cons c cs ih =>
+    by_cases hf : forbiddenCall env c = true
+    · have hs := (callEntry_forbidden env known s c hf).1
+      simp only [runCalls, List.filter_cons, hf, Bool.not_true, Bool.false_eq_true, if_false, hs]
+      exact ih s
+    · have hf' : forbiddenCall env c = false := by simpa using hf
+      simp only [runCalls, List.filter_cons, hf', Bool.not_false, if_true]
+      have := ih (callEntry env known s c.1 c.2.1 c.2.2).1
+      exact ⟨this.1, by rw [this.2]⟩
+
+/-- **C14.refusals_release** — in every history every forbidden call is answered by a panic or an error and the
+library holds on to nothing it was handed by it. -/
+theorem C14_refusals_release (env : Env) (known : Int → Bool) (s : State) (cs : List Call) :
+    ∀ p ∈ (runCalls env known s cs).2, forbiddenCall env p.1 = true →
+      p.2 = (.panic, false) ∨ p.2 = (.err, false) := by
+  induction cs generalizing s with
+  | nil => intro p hp; cases hp
+  | cons c cs ih =>
+    intro p hp hf
+    simp only [runCalls, List.mem_cons] at hp
+    rcases hp with rfl | hp
+    · exact (callEntry_forbidden env known s c hf).2
+    · exact ih _ p hp hf
+
+/-- non-vacuity: a history with refused calls in the middle, evaluated -/
+example :
+    let cs : List Call := [(.flag, 10, 1), (.pipe, 9, 2), (.register, 12, 3), (.condDefault, 11, 4), (.flag, 10, 5)]
+    ((runCalls Registry.envLinux (fun _ => true) State.init cs).2.map (·.2)) =
+      [(.ok, true), (.panic, false), (.ok, true), (.panic, false), (.ok, true)] := by decide
+
 /-! ## Tie to the generated list and to the source's shape -/
 
 /-- the forbidden list of the source is exactly KILL, STOP, ILL, FPE, SEGV (platform numbers) -/
